@@ -28,7 +28,7 @@ theorem chk16_all (h : Nat) (ht : h / 2048 < 29) : chk16 h = true := by
 
 /-- outcome shapes of `decode16` below the 32-bit space -/
 inductive Out16 (h : Nat) : DecRes → Prop where
-  | ok (i : Instr) (h' : Nat) (e : encode i = .ok [h']) (t : h' / 2048 < 29)
+  | ok (i : Instr) (h' : Nat) (e : encode i = .ok [h']) (t : h' / 2048 < 29) (b : h' < 65536)
       (d : decode16 h' = .ok (2, i)) : Out16 h (.ok (2, i))
   | undefined : Out16 h (.error (.undefined h none))
   | unpredictable : Out16 h (.error (.unpredictable h none))
@@ -44,13 +44,13 @@ theorem decode16_out (h : Nat) (ht : h / 2048 < 29) : Out16 h (decode16 h) := by
     split at c
     · rename_i h' he
       simp only [Bool.or_eq_true, beq_iff_eq, Bool.and_eq_true, decide_eq_true_eq] at c
-      rcases c with rfl | ⟨⟨t, _⟩, c⟩
-      · rw [hd]; exact .ok i _ he ht hd
+      rcases c with rfl | ⟨⟨t, tb⟩, c⟩
+      · rw [hd]; exact .ok i _ he ht (by omega) hd
       · split at c
         · rename_i n' i' hd'
           simp only [Bool.and_eq_true, beq_iff_eq, decide_eq_true_eq] at c
           obtain ⟨rfl, rfl⟩ := c
-          rw [hd]; exact .ok _ _ he t hd'
+          rw [hd]; exact .ok _ _ he t tb hd'
         · cases c
     · cases c
   · rename_i a hd; simp only [beq_iff_eq] at c; subst c; rw [hd]; exact .undefined
